@@ -553,32 +553,13 @@ def rule_dispatch(ctx):
           probs.append("formula branch is used without testing that the shared inverse exists")
     ctx.record(R, f.where, "shared-inverse routing", not probs, "; ".join(sorted(set(probs))) or
                "inverse requested iff all operands finite; formula iff inverse available; otherwise scalar fall-back on the same operands")
-  # ---- BatchInverse
+  # ---- BatchInverse: passes, skip tests and result are decided semantically by R-C11-BATCHINV; here only the single inversion modulo p
   f, w = walk(repo, "BatchInverse")
-  fn = f.node
-  loops = [n for n in fn.body if isinstance(n, ast.For)]
   probs = []
-  if len(loops) != 2:
-    probs.append("expected a forward and a backward pass")
-  else:
-    tests = []
-    for lp in loops:
-      ifs = [x for x in lp.body if isinstance(x, ast.If)]
-      if len(ifs) != 1 or ifs[0].orelse:
-        probs.append("pass does not have a single skip test")
-      else:
-        tests.append(norm(ifs[0].test))
-    if len(tests) == 2 and tests[0] != tests[1]:
-      probs.append("the two passes skip different entries (%s vs %s)" % tuple(tests))
-    if ast.unparse(loops[1].iter).replace(" ", "") != "range(len(values)-1,-1,-1)":
-      probs.append("backward pass does not run from the last to the first entry")
-  raises = [e for e in w.events if e.kind == "raise"]
-  if not any(any(f_[0] == "cmp" and f_[1] == "NotEq" and as_poly(f_[3]) == Poly.const(1) for f_ in e.facts) for e in raises):
-    probs.append("final self-check `inverse != 1 -> raise` missing")
   inv = [e for e in w.events if e.kind == "call" and e.data["name"] == "ext:gmpy2.invert"]
   if len({id(e.node) for e in inv}) != 1 or any(as_poly(e.data["args"][1]) != M for e in inv):
     probs.append("exactly one modular inversion modulo self.mod expected")
-  ctx.record(R, f.where, "skip test / self-check", not probs, "; ".join(probs) or "both passes skip falsy entries with the same test; one inversion; final invariant check")
+  ctx.record(R, f.where, "one shared inversion", not probs, "; ".join(probs) or "a single gmpy2.invert(product, self.mod) serves the whole list")
 
 
 # ------------------------------------------------------------------ CURVES
